@@ -39,6 +39,7 @@ func Run(c *core.Ctx) {
 	}
 	r1(c)
 	r2(c)
+	gateReleased(c)
 	// R3
 	if c.Func(c03.DbSync, c03.Syncer, "runIncrementalSync") != nil {
 		if n := c03.PSyncCalls(c, "R3.reconnect", "runIncrementalSync"); n == 0 {
@@ -53,10 +54,62 @@ func Run(c *core.Ctx) {
 	if n == 0 {
 		c.Undecidedf("R4.single-writer", "sourceOffset", token.NoPos, "no writer of ds.sourceOffset found")
 	}
-	c.Expect("R1.double-count", 3)
-	c.Expect("R2.ack", 7)
-	c.Expect("R3.reconnect", 8)
-	c.Expect("R4.single-writer", 3)
+	c03.Expect(c, "R1.double-count", 3)
+	c03.Expect(c, "R2.ack", 7)
+	c03.Expect(c, "R3.reconnect", 8)
+	c03.Expect(c, "R4.single-writer", 3)
+}
+
+// gateReleased (R2): the ACK goroutine acknowledges 0 and leaves ds.sourceOffset
+// alone until ds.WaitFull is closed. The gate must therefore be released on
+// every path from a successful PSYNC into the incremental phase, whether the
+// source answered FULLRESYNC or CONTINUE.
+func gateReleased(c *core.Ctx) {
+	const rule, key = "R2.ack", "full-sync-gate/released-before-incremental"
+	sp := c03.NewSyncSpan(c)
+	if sp == nil {
+		return
+	}
+	isClose := func(i *types.Info, m ast.Node) bool {
+		call, ok := m.(*ast.CallExpr)
+		if !ok || len(call.Args) != 1 {
+			return false
+		}
+		bi, ok := core.Callee(i, call).(*types.Builtin)
+		return ok && bi.Name() == "close" && core.IsFieldNamed(i, call.Args[0], c03.Syncer, "WaitFull")
+	}
+	// is the gate used at all, and where is it released?
+	gated, closes, closesInSync := false, 0, 0
+	for _, b := range c03.AllBodies(c) {
+		b := b
+		core.Inspect(b.Root(), func(n ast.Node) bool {
+			if u, ok := n.(*ast.UnaryExpr); ok && u.Op == token.ARROW && core.IsFieldNamed(b.Pkg.TypesInfo, u.X, c03.Syncer, "WaitFull") {
+				gated = true
+			}
+			if isClose(b.Pkg.TypesInfo, n) {
+				closes++
+				if b.Lit == nil && b.Decl == sp.Fn.Decl {
+					closesInSync++
+				}
+			}
+			return true
+		})
+	}
+	if !gated {
+		return
+	}
+	releases := func(n ast.Node) bool { return c03.InCallee(c, sp.Info, n, isClose) }
+	w := sp.Skips(releases)
+	switch {
+	case closes == 0:
+		c.Failf(rule, key, sp.Fn.Decl.Pos(), "ds.WaitFull is never closed: the ACK goroutine acknowledges offset 0 for ever and never advances ds.sourceOffset, so a reconnect asks for bytes that were already received")
+	case w == nil:
+		c.Okf(rule, key, sp.Fn.Decl.Pos(), "ds.WaitFull is closed on every path from the PSYNC into the incremental phase")
+	case closes != closesInSync || !sp.Direct:
+		c.Undecidedf(rule, key, sp.Fn.Decl.Pos(), "a path from the PSYNC into the incremental phase does not close ds.WaitFull in Sync; it is also closed elsewhere / the phase starts in a helper")
+	default:
+		c.Check(rule, key, sp.Fn.Decl.Pos(), false, "ds.WaitFull is not closed on every path from a successful sendPSyncCmd into the incremental phase: on that path (e.g. the source answers +CONTINUE, so there is no RDB phase) the ACK goroutine keeps sending REPLCONF ACK 0 and never adds the received bytes to ds.sourceOffset; the acknowledged offset is not `start offset + bytes received`, and a re-established link asks for PSYNC <checkpoint>+1 again, i.e. for bytes that were already received and forwarded (commands applied twice)", w...)
+	}
 }
 
 // ---------------------------------------------------------------------------
@@ -157,12 +210,41 @@ func baseVar(info *types.Info, e ast.Expr) *types.Var {
 	}
 }
 
+// looksLikeAdvance: Add / Incr of an atomic2.Int64, or Set(<its Get()> + x), whatever the receiver looks like
+// (a plain Set(x) overwrites the counter: not an advance).
+func looksLikeAdvance(info *types.Info, call *ast.CallExpr) bool {
+	_, name, ok := atomicMethod(info, call)
+	if !ok {
+		return false
+	}
+	switch name {
+	case "Add", "Incr":
+		return true
+	case "Set":
+		if len(call.Args) != 1 {
+			return false
+		}
+		be, isB := ast.Unparen(call.Args[0]).(*ast.BinaryExpr)
+		if !isB || be.Op != token.ADD {
+			return false
+		}
+		for _, side := range []ast.Expr{be.X, be.Y} {
+			if g, isC := ast.Unparen(side).(*ast.CallExpr); isC {
+				if _, n2, ok2 := atomicMethod(info, g); ok2 && n2 == "Get" {
+					return true
+				}
+			}
+		}
+	}
+	return false
+}
+
 // anyAtomicAdvance: some atomic2.Int64 is advanced under root, whatever its receiver looks like.
 func anyAtomicAdvance(info *types.Info, root ast.Node) bool {
 	found := false
 	core.InspectAll(root, func(n ast.Node) bool {
 		if call, ok := n.(*ast.CallExpr); ok {
-			if _, name, ok := atomicMethod(info, call); ok && (name == "Add" || name == "Incr" || name == "Set") {
+			if looksLikeAdvance(info, call) {
 				found = true
 			}
 		}
@@ -698,8 +780,7 @@ func r2(c *core.Ctx) {
 				if !ok {
 					return false
 				}
-				_, name, isM := atomicMethod(i, cl)
-				return isM && (name == "Add" || name == "Incr" || name == "Set")
+				return looksLikeAdvance(i, cl)
 			})
 		}
 		return true
